@@ -30,6 +30,14 @@ func interpolateV1(v1, v2, t float64) float64 {
 }
 
 func interpolateVerts(v1, v2 vector3.Float64, v1v, v2v, cutoff float64) vector3.Float64 {
+	// Always interpolate from the lower end of the cube edge. Neighbouring cubes
+	// (and neighbouring blocks) walk a shared edge in opposite directions; starting
+	// from a canonical end makes every copy of the vertex bit-identical, so the
+	// rounding based lookups and the final weld always merge them.
+	if v2.X() < v1.X() || v2.Y() < v1.Y() || v2.Z() < v1.Z() {
+		v1, v2 = v2, v1
+		v1v, v2v = v2v, v1v
+	}
 	t := interpolationValueFromCutoff(v1v, v2v, cutoff)
 	return v2.Sub(v1).Scale(t).Add(v1)
 }
